@@ -15,6 +15,7 @@ import MTVerif.Model.Contain
 import MTVerif.Model.Anno
 import MTVerif.Model.Sig
 import MTVerif.Model.Render
+import MTVerif.Model.Imports
 namespace MT
 open Sexp
 
@@ -247,6 +248,15 @@ def handle (st : DState) (req : Sexp) : Except String (DState × Sexp) :=
       let ns := Render.tdNames (← strOf hint) (← tyOf t)
       .ok (st, .list [.list (ns.map (fun n => .str n)), sexpOfBool (Render.hasNameCollision ns),
                       sexpOfBool (Render.tdFieldNeedsName st.names (← tyOf t))])
+  | .list [.atom "movable", .list stub, .list src, .list stars] => do
+      let itemOf (x : Sexp) : Except String Imports.Item := match x with
+        | .list [m, o, a] => do
+            let opt (y : Sexp) : Except String (Option String) := match y with | .atom "none" => .ok none | y => (strOf y).map some
+            .ok { module := ← strOf m, obj := ← opt o, alias := ← opt a }
+        | _ => .error "bad import item"
+      let mv := Imports.movable (Imports.newlyImported (← stub.mapM itemOf) (← src.mapM itemOf) (← stars.mapM strOf))
+      let so (o : Option String) : Sexp := match o with | none => .atom "none" | some s => .str s
+      .ok (st, .list (mv.map (fun i => .list [.str i.module, so i.obj, so i.alias])))
   | .list [.atom "trig", r, t] => do
       .ok (st, sexpOfBool ((← tyOf t).trig (← rwOf r)))
   | .list [.atom "normal", t] => do
